@@ -52,12 +52,29 @@ def make_expr(ch, params):
             body = [('block', I32, [('i32.const', 5)] + body + [('i32.eqz',), ('br_if', 0), ('drop',), ('i32.const', 6)])]
         m.funcs.append(Func(m.type_index((ft, ft), (I32,)), [], body))
         m.exports.append((b'ncmp%d' % k, 'func', len(m.funcs) - 1))
+    # an operator fed by an immediate that LOOKS like its identity or absorbing element (x - (-0), x + 0, x * 1, x / 1, min(x, inf),
+    # x * 0 ...): IEEE arithmetic has fewer identities than the reals (signed zeros, NaN payloads, signalling NaNs), so a translator
+    # or compiler that simplifies the window is wrong for exactly one or two operand patterns
+    FC = {F32: (0x00000000, 0x80000000, 0x3f800000, 0xbf800000, 0x7f800000, 0xff800000, 0x7fc00000, 0x40000000, 0x3f000000),
+          F64: (0x0000000000000000, 0x8000000000000000, 0x3ff0000000000000, 0xbff0000000000000, 0x7ff0000000000000,
+                0xfff0000000000000, 0x7ff8000000000000, 0x4000000000000000, 0x3fe0000000000000)}
+    for k in range(10):
+        ft = ch.pick((F32, F64))
+        c = ('%s.const' % ft, ch.pick(FC[ft][:6]) if ch.below(4) else ch.pick(FC[ft]))
+        op = ('%s.%s' % (ft, ch.pick(('add', 'sub', 'sub', 'mul', 'div', 'min', 'max', 'copysign'))),)
+        body = [('local.get', 0), c, op] if ch.below(3) else [c, ('local.get', 0), op]
+        m.funcs.append(Func(m.type_index((ft,), (ft,)), [], body))
+        m.exports.append((b'fident%d' % k, 'func', len(m.funcs) - 1))
     script = [('inst', 0)]
     fex = [(n, i) for n, kd, i in m.exports if kd == 'func']
     for e, (n, fi) in enumerate(fex):
         ps = m.func_type(fi)[0]
         for _ in range(params.get('nargs', 12) if ps else 1):
             script.append(('call', 0, e, gen.gen_args(ch, ps)))
+        if n.startswith(b'fident'):
+            for a in FC[ps[0]] + ((1, 0x80000001, 0x7f7fffff, 0x7fe00001, 0xffc00123) if ps[0] == F32 else
+                                  (1, 0x8000000000000001, 0x7fefffffffffffff, 0x7ffc000000000001, 0xfff8000000000123)):
+                script.append(('call', 0, e, [a]))
         if n.startswith(b'deadtrunc') or n.startswith(b'ncmp'):
             nan, inf, big = ((0x7fc00000, 0x7f800000, 0x5f800000) if ps[0] == F32 else (0x7ff8000000000000, 0x7ff0000000000000, 0x43f0000000000000))
             for a in (nan, inf, big, nan | 1, 0):
